@@ -9,6 +9,7 @@ import (
 	"io"
 	"sort"
 	"strings"
+	"sync"
 	"time"
 
 	"github.com/anishathalye/porcupine"
@@ -16,6 +17,8 @@ import (
 
 	"github.com/jdillenkofer/pithos/internal/storage/database"
 	repositoryfactory "github.com/jdillenkofer/pithos/internal/storage/database/repository"
+	"github.com/jdillenkofer/pithos/internal/storage/database/repository/partoutboxentry"
+	"github.com/oklog/ulid/v2"
 	"github.com/jdillenkofer/pithos/internal/storage/metadatapart/partstore"
 	outboxpartstore "github.com/jdillenkofer/pithos/internal/storage/metadatapart/partstore/outbox"
 	"github.com/jdillenkofer/pithos/verifharness/seams"
@@ -346,11 +349,85 @@ func (s *startedStore) Capabilities() partstore.Capabilities {
 	return partstore.CapabilitiesOf(s.PartStore)
 }
 
+// fenceLedger watches the claim protocol of all flush-worker instances of one
+// outbox: who claimed an entry last, and under which owner identity. A worker
+// that lost its claim to another instance must not be able to finalize,
+// release or extend that entry; it can only if the repository's fence cannot
+// tell the two instances apart (same owner identity).
+type fenceLedger struct {
+	mu     sync.Mutex
+	holder map[ulid.ULID]fenceHolder
+	breach string
+	lost   int // fenced-off attempts seen (reach probe)
+}
+type fenceHolder struct{ instance, owner string }
+
+type fencedRepo struct {
+	partoutboxentry.Repository
+	instance string
+	l        *fenceLedger
+}
+
+func (f *fencedRepo) ClaimFirstPartOutboxEntry(ctx context.Context, tx *sql.Tx, outboxId string, owner string, now time.Time, claimUntil time.Time) (*partoutboxentry.Entity, bool, error) {
+	e, claimed, err := f.Repository.ClaimFirstPartOutboxEntry(ctx, tx, outboxId, owner, now, claimUntil)
+	if err == nil && claimed && e != nil && e.Id != nil {
+		f.l.mu.Lock()
+		f.l.holder[*e.Id] = fenceHolder{f.instance, owner}
+		f.l.mu.Unlock()
+	}
+	return e, claimed, err
+}
+
+func (f *fencedRepo) fenced(what string, id ulid.ULID, owner string, ok bool) {
+	f.l.mu.Lock()
+	defer f.l.mu.Unlock()
+	h, known := f.l.holder[id]
+	if !known || h.instance == f.instance {
+		return
+	}
+	if !ok {
+		f.l.lost++
+		return
+	}
+	// another instance claimed the entry after us, yet the repository let us through
+	if h.owner == owner && f.l.breach == "" {
+		f.l.breach = fmt.Sprintf("%s of entry %s by worker instance %s succeeded although instance %s had re-claimed the entry: both present the claim owner %q, so the lease fence cannot tell them apart", what, id.String(), f.instance, h.instance, owner)
+	}
+}
+
+func (f *fencedRepo) DeletePartOutboxEntryByClaimOwner(ctx context.Context, tx *sql.Tx, outboxId string, id ulid.ULID, owner string) (bool, error) {
+	ok, err := f.Repository.DeletePartOutboxEntryByClaimOwner(ctx, tx, outboxId, id, owner)
+	if err == nil {
+		f.fenced("finalize", id, owner, ok)
+	}
+	return ok, err
+}
+
+func (f *fencedRepo) ReleasePartOutboxEntryClaim(ctx context.Context, tx *sql.Tx, outboxId string, id ulid.ULID, owner string, now time.Time) (bool, error) {
+	ok, err := f.Repository.ReleasePartOutboxEntryClaim(ctx, tx, outboxId, id, owner, now)
+	if err == nil {
+		f.fenced("release", id, owner, ok)
+	}
+	return ok, err
+}
+
+func (f *fencedRepo) ExtendPartOutboxEntryClaim(ctx context.Context, tx *sql.Tx, outboxId string, id ulid.ULID, owner string, now time.Time, claimUntil time.Time) (bool, error) {
+	ok, err := f.Repository.ExtendPartOutboxEntryClaim(ctx, tx, outboxId, id, owner, now, claimUntil)
+	if err == nil {
+		f.fenced("heartbeat extend", id, owner, ok)
+	}
+	return ok, err
+}
+
 func runC18(rc *RunCtx) (*Violation, error) {
 	g := rc.Gen()
 	lease := time.Duration(1+g.Int(5)) * time.Second
 	bottom := []string{"fs", "sql"}[g.Int(2)]
+	ledger := &fenceLedger{holder: map[ulid.ULID]fenceHolder{}}
 	spec := world.Spec{Default: world.StackSpec{Bottom: bottom, Layers: []world.LayerSpec{{Kind: "outbox", Lease: lease}}}, GCGrace: time.Hour, GCInterval: time.Hour}
+	spec.WrapPartOutboxRepo = func(instance string, r partoutboxentry.Repository) partoutboxentry.Repository {
+		return &fencedRepo{Repository: r, instance: instance, l: ledger}
+	}
 	w, err := rc.World(spec)
 	if err != nil {
 		return nil, err
@@ -369,7 +446,7 @@ func runC18(rc *RunCtx) (*Violation, error) {
 		if err != nil {
 			return nil, err
 		}
-		second, err = outboxpartstore.New(w.DB, "outbox-default", &startedStore{inner}, repo, prometheus.NewRegistry(), lease)
+		second, err = outboxpartstore.New(w.DB, "outbox-default", &startedStore{inner}, &fencedRepo{Repository: repo, instance: "second", l: ledger}, prometheus.NewRegistry(), lease)
 		if err != nil {
 			return nil, err
 		}
@@ -535,6 +612,15 @@ func runC18(rc *RunCtx) (*Violation, error) {
 	if err := rc.S.RunFor(5*lease + 12*time.Second + 30*time.Second); err != nil {
 		return nil, err
 	}
+	ledger.mu.Lock()
+	breach, lostClaims := ledger.breach, ledger.lost
+	ledger.mu.Unlock()
+	if lostClaims > 0 {
+		rc.Logf("fence ledger: %d finalize/release/extend attempts of a worker that had lost its claim were refused", lostClaims)
+	}
+	if breach != "" {
+		return rc.Fail("fence", "lost-claim-not-fenced", "%s", breach), nil
+	}
 	pending, err := w.QueryInt(ctx, "SELECT COUNT(*) FROM part_outbox_entries")
 	if err == nil && pending != 0 {
 		return rc.Fail("drain", "outbox-not-drained", "%d outbox entries remain %v after the last fault (lease %v)", pending, 5*lease+42*time.Second, lease), nil
@@ -631,7 +717,7 @@ func init() {
 			p.StallMax = 12 * time.Second
 			return p
 		},
-		Rule: "2-3 client tasks commit or roll back PutPart/DeletePart transactions and read (tx-bound and tx-free GetPart, GetPartIds) 2-4 part ids through the outbox part store while its real flush worker (and in half the runs a second worker instance with the same outbox id) runs with 1-5 s leases under a preempting scheduler, scheduler idle steps (lease expiry between replay and finalize) and injected inner-store errors; porcupine per part id against a register of committed content; after faults stop, within 5 leases + 30 s of simulated time the outbox table is empty and the inner store equals what the outbox store reports; non-trivial = at least 5 recorded operations",
+		Rule: "2-3 client tasks commit or roll back PutPart/DeletePart transactions and read (tx-bound and tx-free GetPart, GetPartIds) 2-4 part ids through the outbox part store while its real flush worker (and in half the runs a second worker instance with the same outbox id) runs with 1-5 s leases under a preempting scheduler, scheduler idle steps (lease expiry between replay and finalize) and injected inner-store errors; porcupine per part id against a register of committed content; after faults stop, within 5 leases + 30 s of simulated time the outbox table is empty and the inner store equals what the outbox store reports; a fence ledger around the repository of every worker instance records who claimed an entry last and fails the run when a finalize, release or heartbeat extend of a worker that lost its claim to another instance succeeds (refused attempts are counted as a reach probe); non-trivial = at least 5 recorded operations",
 		Real: realStack,
 		Run:  runC18,
 	})
